@@ -577,6 +577,13 @@ class FloorOnNegative(Exception):
         self.what = what
 
 
+class InexactDivision(Exception):
+    """An integer quotient computed through float true division (53-bit mantissa)."""
+
+    def __init__(self, what: str):
+        self.what = what
+
+
 class SignEval:
     """Evaluates the straight-line body of an integer division method for one
     assignment of signs to the parameters.  Values are sign * magnitude."""
@@ -642,11 +649,15 @@ class SignEval:
             if f == "abs" and len(node.args) == 1:
                 v = self.ev(node.args[0])
                 return SV(0 if v.sign == 0 else 1, v.mag)
+            if last in ("trunc", "floor", "ceil", "round") and len(node.args) == 1:
+                return self.ev(node.args[0])  # an inexact float quotient inside raises InexactDivision
             # super().__floordiv__(x) etc. on self
             if isinstance(node.func, ast.Attribute) and isinstance(node.func.value, ast.Call):
                 if dotted(node.func.value.func) == "super" and len(node.args) == 1 and "self" in self.env:
                     opname = node.func.attr
                     a, b = self.env["self"], self.ev(node.args[0])
+                    if opname in ("__truediv__", "__rtruediv__"):
+                        raise InexactDivision(f"`{ast.unparse(node)}` is float true division: the quotient is rounded to 53 bits before truncation")
                     table = {
                         "__floordiv__": ast.FloorDiv, "__mod__": ast.Mod, "__mul__": ast.Mult,
                         "__rfloordiv__": ast.FloorDiv, "__rmod__": ast.Mod, "__rmul__": ast.Mult,
@@ -695,5 +706,5 @@ class SignEval:
                 raise FloorOnNegative(f"`{text}` applies Python's flooring {'//' if isinstance(op, ast.FloorDiv) else '%'} to a possibly negative operand")
             return SV(1 if a.sign != 0 else 0, ("q" if isinstance(op, ast.FloorDiv) else "r", a.mag, b.mag))
         if isinstance(op, ast.Div):
-            raise SignTop("true division is not exact for integers")
+            raise InexactDivision(f"`{text}` is float true division: the quotient is rounded to 53 bits")
         raise SignTop(f"operator {type(op).__name__}")
